@@ -576,6 +576,7 @@ impl Session {
                     w.faults.fail_recv_at = None;
                     w.faults.timeout_recv_at = None;
                     w.faults.eof_read_at = None;
+                    w.faults.timeout_read_at = None;
                     w.faults.write_chunks.clear();
                     w.faults.read_chunks.clear();
                 }
@@ -588,6 +589,10 @@ impl Session {
                 ["timeout_recv", n] => {
                     let at = w.recvs + n.parse::<usize>().unwrap();
                     w.faults.timeout_recv_at = Some(at);
+                }
+                ["timeout_read", n] => {
+                    let at = w.reads + n.parse::<usize>().unwrap();
+                    w.faults.timeout_read_at = Some(at);
                 }
                 ["eof_read", n] => {
                     let at = w.reads + n.parse::<usize>().unwrap();
